@@ -73,6 +73,29 @@ pub enum E {
     C { x: Vec<E>, p: PhantomData<u8> },
 }
 
+/// a documented generic type whose docs are captured whatever the crate features are
+/// Second line.
+#[derive(TypeInfo)]
+#[scale_info(capture_docs = "always")]
+pub struct Doc<T> {
+    /// field doc
+    pub t: T,
+}
+
+/// two DIFFERENT types with the same `core::any::type_name` (items local to one function body) and different definitions
+macro_rules! local_payload {
+    ($f:ident : $t:ty) => {{
+        #[derive(TypeInfo)]
+        struct Payload {
+            $f: $t,
+        }
+        meta_type::<Payload>()
+    }};
+}
+pub fn same_name_locals() -> (MetaType, MetaType) {
+    (local_payload!(a: u8), local_payload!(b: bool))
+}
+
 // ---------------------------------------------------------------- hand-written impls
 
 thread_local! {
@@ -272,5 +295,9 @@ pub fn universe() -> Vec<Member> {
         m!(Rc<HandEnum>, "HandEnum"),
         m!(HandTuple, "HandTuple"),
         m!(HandWs, "HandWs"),
+        m!(Doc<u8>, "Doc<u8>"),
+        m!(Doc<bool>, "Doc<bool>"),
+        Member { label: "LocalPayloadA", meta: same_name_locals().0, ident: "LocalPayloadA", core: false },
+        Member { label: "LocalPayloadB", meta: same_name_locals().1, ident: "LocalPayloadB", core: false },
     ]
 }
